@@ -115,9 +115,9 @@ theorem consumerPel_names (key group consumer : Bytes) (nacks : List (Bytes × N
         · exact Or.inr (Or.inr (Or.inr rfl))
         · exact ih _ _ _ h2 c hc
 
-theorem streamConsumers_names (v3 : Bool) (key group : Bytes) (nacks : List (Bytes × Nat × Nat)) :
+theorem streamConsumers_names (cc : Bool) (v3 : Bool) (key group : Bytes) (nacks : List (Bytes × Nat × Nat)) :
     ∀ (n : Nat) (bs : Bytes) (cs : List Cmd) (r : Bytes),
-      streamConsumers v3 key group nacks n bs = some (cs, r) → ∀ c ∈ cs, streamName c := by
+      streamConsumers cc v3 key group nacks n bs = some (cs, r) → ∀ c ∈ cs, streamName c := by
   intro n
   induction n with
   | zero => intro bs cs r h; simp only [streamConsumers, Option.some.injEq, Prod.mk.injEq] at h; obtain ⟨rfl, _⟩ := h; intro c hc; cases hc
@@ -139,7 +139,11 @@ theorem streamConsumers_names (v3 : Bool) (key group : Bytes) (nacks : List (Byt
               cases h
               intro c hc
               rcases List.mem_append.mp hc with hc | hc
-              · exact consumerPel_names _ _ _ _ _ _ _ _ h1 c hc
+              · rcases List.mem_append.mp hc with hc | hc
+                · split at hc
+                  · simp only [List.mem_singleton] at hc; subst hc; exact Or.inr (Or.inr (Or.inl rfl))
+                  · cases hc
+                · exact consumerPel_names _ _ _ _ _ _ _ _ h1 c hc
               · exact ih _ _ _ h2 c hc
 
 theorem streamGroups_names (x : XCfg) (v2 v3 : Bool) (key : Bytes) (ea sl lm ls : Nat) :
@@ -173,7 +177,7 @@ theorem streamGroups_names (x : XCfg) (v2 v3 : Bool) (key : Bytes) (ea sl lm ls 
                     rcases List.mem_cons.mp hc with rfl | hc
                     · exact Or.inr (Or.inr (Or.inl rfl))
                     · rcases List.mem_append.mp hc with hc | hc
-                      · exact streamConsumers_names _ _ _ _ _ _ _ _ hcl c hc
+                      · exact streamConsumers_names _ _ _ _ _ _ _ _ _ hcl c hc
                       · exact ih _ _ hrest c hc
       · cases h
 
